@@ -145,6 +145,27 @@ def same_value(f: Func, a: ast.AST, b: ast.AST) -> bool:
     return bool(ta & tb)
 
 
+def returned_exprs(f: Func, ret: ast.Return, depth: int = 3, with_stmt: bool = False) -> list:
+    """The expressions a `return` statement may yield: its value, or - when the value is a bare local whose
+    definitions reaching the statement (flow-sensitive) are all plain whole assignments - the assigned expressions
+    (`tmp = <expr>; return tmp` reads like `return <expr>`).  Anything else is a leaf.  `with_stmt`: pairs
+    (expression, statement that evaluates it)."""
+    from ..dataflow import reaching_defs
+
+    def go(e: ast.AST, at: ast.AST, d: int, seen: frozenset) -> list:
+        if isinstance(e, ast.Name) and d > 0 and e.id not in seen:
+            ds = reaching_defs(f, e.id, at)
+            if ds and all(x.kind == "assign" and x.index is None and x.value is not None and x.stmt is not None for x in ds):
+                out: list = []
+                for x in ds:
+                    out.extend(go(x.value, x.stmt, d - 1, seen | {e.id}))
+                return out
+        return [(e, at)]
+
+    res = go(ret.value, ret, depth, frozenset()) if ret.value is not None else []
+    return res if with_stmt else [e for e, _ in res]
+
+
 # ------------------------------------------------------------------ branch facts
 
 
@@ -1403,3 +1424,226 @@ def recovering_decision(prog: Program, f: Func, update_qualname: str) -> RecDeci
         raise Uninterpretable(f"expected one is_recovering test in {f.name}, found 0")
     n, yes, no = best
     return RecDecision(n, effective_test(f, n.ast), None, yes, no, None, [], False, False)
+
+
+# ------------------------------------------------------------------ value kinds (small annotation-driven typing)
+#
+# kind ::= 'int' | 'str' | 'bool' | 'T' (a type variable: whatever the container holds) | ('cls', qualname)
+#        | ('coll', kind) | ('map', key kind, value kind) | None (unknown)
+
+_COLL_ANN = {"MutableSet", "Set", "AbstractSet", "FrozenSet", "MutableSequence", "Sequence", "Iterable", "Collection", "Iterator", "list", "set", "frozenset",
+             "tuple", "List", "Deque", "deque", "KeysView", "ValuesView"}
+_MAP_ANN = {"MutableMapping", "Mapping", "dict", "Dict", "defaultdict", "OrderedDict"}
+
+
+def ann_kind(prog: Program, m, ann: ast.AST | None):
+    """Kind denoted by an annotation expression of module `m`."""
+    if ann is None:
+        return None
+    if isinstance(ann, ast.Constant) and isinstance(ann.value, str):
+        try:
+            ann = ast.parse(ann.value, mode="eval").body
+        except SyntaxError:
+            return None
+    if isinstance(ann, ast.Constant):
+        return None
+    if isinstance(ann, ast.BinOp) and isinstance(ann.op, ast.BitOr):
+        ks = [ann_kind(prog, m, s) for s in (ann.left, ann.right) if not (isinstance(s, ast.Constant) and s.value is None)]
+        return ks[0] if len(ks) == 1 or (ks and all(k == ks[0] for k in ks)) else None
+    if isinstance(ann, ast.Subscript):
+        head = (dotted(ann.value) or "").split(".")[-1]
+        sl = ann.slice.elts if isinstance(ann.slice, ast.Tuple) else [ann.slice]
+        if head in ("Optional", "Final", "ClassVar", "Annotated"):
+            return ann_kind(prog, m, sl[0])
+        if head in _MAP_ANN and len(sl) == 2:
+            return ("map", ann_kind(prog, m, sl[0]), ann_kind(prog, m, sl[1]))
+        if head in _COLL_ANN and sl:
+            return ("coll", ann_kind(prog, m, sl[0]))
+        return ann_kind(prog, m, ann.value)
+    d = dotted(ann)
+    if d is None:
+        return None
+    if d in ("int", "str", "bool"):
+        return d
+    q = prog.resolve_dotted(m, d)
+    if q in prog.classes:
+        return ("cls", q)
+    if len(d) <= 2 and d.isupper():  # a TypeVar (T, K, V)
+        return "T"
+    return None
+
+
+def attr_annotation(prog: Program, cq: str, attr: str):
+    """(module, annotation expression) of attribute `attr` of class `cq` (class-level or `self.attr: ann = ..` in a
+    method, first along the MRO), or None."""
+    for k in prog.mro(cq):
+        c = prog.classes.get(k)
+        if c is None:
+            continue
+        for n in c.node.body:
+            if isinstance(n, ast.AnnAssign) and isinstance(n.target, ast.Name) and n.target.id == attr:
+                return c.module, n.annotation
+        for f in c.methods.values():
+            for n in f.body_nodes():
+                if isinstance(n, ast.AnnAssign) and isinstance(n.target, ast.Attribute) and n.target.attr == attr and isinstance(n.target.value, ast.Name) \
+                        and n.target.value.id == "self":
+                    return c.module, n.annotation
+    return None
+
+
+def _elem(k):
+    if isinstance(k, tuple) and k[0] == "coll":
+        return k[1]
+    if isinstance(k, tuple) and k[0] == "map":
+        return k[1]  # iterating a mapping yields its keys
+    return None
+
+
+def _agree(ks):
+    ks = [k for k in ks if k != "none"]
+    return ks[0] if ks and all(k == ks[0] for k in ks) else None
+
+
+def value_kind(prog: Program, f: Func, e: ast.AST | None, depth: int = 6, seen: frozenset = frozenset()):
+    """Kind of the value of expression `e` in `f`, from annotations (parameters, attributes, return types) followed
+    through locals, loop / comprehension targets, subscripts and the usual container methods.  None = unknown."""
+    if e is None or depth <= 0:
+        return None
+    e = strip(e)
+    rec = lambda x, s=seen: value_kind(prog, f, x, depth - 1, s)  # noqa: E731
+    if isinstance(e, ast.Constant):
+        if e.value is None:
+            return "none"
+        return {bool: "bool", int: "int", str: "str"}.get(type(e.value))
+    if isinstance(e, ast.JoinedStr):
+        return "str"
+    if isinstance(e, ast.IfExp):
+        return _agree([rec(e.body), rec(e.orelse)])
+    if isinstance(e, (ast.List, ast.Set, ast.Tuple)):
+        if not e.elts:
+            return "none"  # an empty literal fits every collection
+        return ("coll", _agree([rec(x) for x in e.elts]))
+    if isinstance(e, (ast.ListComp, ast.SetComp, ast.GeneratorExp)):
+        return ("coll", rec(e.elt))
+    if isinstance(e, ast.BinOp) and isinstance(e.op, (ast.BitAnd, ast.BitOr, ast.Sub, ast.BitXor, ast.Add)):
+        l, r = rec(e.left), rec(e.right)
+        for k in (l, r):
+            if isinstance(k, tuple) and k[0] == "coll" and k[1] is not None:
+                return k
+        return l if l == r else None
+    if isinstance(e, ast.Attribute):
+        base = prog.type_of(f, e.value)
+        if base in prog.classes:
+            a = attr_annotation(prog, base, e.attr)
+            if a is not None:
+                return ann_kind(prog, a[0], a[1])
+            t = prog.attr_type(base, e.attr)
+            return ("cls", t) if t else None
+        bk = rec(e.value)
+        if isinstance(bk, tuple) and bk[0] == "cls" and bk[1] in prog.classes:
+            a = attr_annotation(prog, bk[1], e.attr)
+            return ann_kind(prog, a[0], a[1]) if a is not None else None
+        return None
+    if isinstance(e, ast.Subscript):
+        bk = rec(e.value)
+        if isinstance(e.slice, ast.Slice):
+            return bk
+        if isinstance(bk, tuple) and bk[0] == "map":
+            return bk[2]
+        if isinstance(bk, tuple) and bk[0] == "coll":
+            return bk[1]
+        return None
+    if isinstance(e, ast.Call):
+        fn = e.func
+        if isinstance(fn, ast.Attribute):
+            bk = rec(fn.value)
+            if isinstance(bk, tuple) and bk[0] == "map":
+                if fn.attr in ("get", "pop", "setdefault"):
+                    return bk[2]
+                if fn.attr == "keys":
+                    return ("coll", bk[1])
+                if fn.attr == "values":
+                    return ("coll", bk[2])
+                if fn.attr == "copy":
+                    return bk
+            if isinstance(bk, tuple) and bk[0] == "coll":
+                if fn.attr in ("pop", "popleft"):
+                    return bk[1]
+                if fn.attr in ("copy", "union", "intersection", "difference", "symmetric_difference"):
+                    return bk
+        if isinstance(fn, ast.Name) and fn.id in ("list", "set", "tuple", "frozenset", "sorted", "reversed", "iter", "deque") and len(e.args) == 1 and is_builtin_or_plain(prog, f, fn.id):
+            k = rec(e.args[0])
+            return ("coll", _elem(k)) if _elem(k) is not None else None
+        if isinstance(fn, ast.Name) and fn.id in ("next", "min", "max") and len(e.args) >= 1:
+            return _elem(rec(e.args[0]))
+        if isinstance(fn, ast.Name) and fn.id in ("int", "len", "id", "hash"):
+            return "int"
+        if isinstance(fn, ast.Name) and fn.id in ("str", "repr"):
+            return "str"
+        ks = []
+        for q in rcall(prog, f, e, fanout=False):
+            if q in prog.classes:
+                ks.append(("cls", q))
+            elif q in prog.functions and prog.functions[q].node.returns is not None:
+                g = prog.functions[q]
+                ks.append(ann_kind(prog, g.module, g.node.returns))
+            else:
+                ks.append(None)
+        return ks[0] if ks and all(k == ks[0] for k in ks) else None
+    if isinstance(e, ast.Name):
+        if e.id in seen:
+            return None
+        # a name bound by an enclosing comprehension
+        for a in _ancestors(e):
+            if isinstance(a, (ast.ListComp, ast.SetComp, ast.GeneratorExp, ast.DictComp)):
+                for gen in a.generators:
+                    if isinstance(gen.target, ast.Name) and gen.target.id == e.id:
+                        return _elem(value_kind(prog, f, gen.iter, depth - 1, seen | {e.id}))
+            elif isinstance(a, (ast.FunctionDef, ast.AsyncFunctionDef, ast.Lambda)):
+                break
+        ann = f.param_annotation(e.id)
+        if ann is not None:
+            return ann_kind(prog, f.module, ann)
+        ks = []
+        s2 = seen | {e.id}
+        for d in defs_of(f, e.id):
+            if d.kind == "param":
+                return None
+            if d.kind == "comp":
+                continue
+            if d.index is not None or d.value is None:
+                ks.append(None)
+            elif d.kind in ("assign", "walrus"):
+                if isinstance(d.stmt, ast.AnnAssign):
+                    ks.append(ann_kind(prog, f.module, d.stmt.annotation))
+                else:
+                    ks.append(value_kind(prog, f, d.value, depth - 1, s2))
+            elif d.kind == "for":
+                ks.append(_elem(value_kind(prog, f, d.value, depth - 1, s2)))
+            else:
+                ks.append(None)
+        return _agree(ks) if ks and None not in ks else None
+    return None
+
+
+def _ancestors(n):
+    from ..model import ancestors
+
+    return ancestors(n)
+
+
+def is_builtin_or_plain(prog: Program, f: Func, name: str) -> bool:
+    """`name` is not shadowed by a local / module-level definition (deque from collections counts as plain)."""
+    return not prog._is_local(f, name) and f"{f.module.name}.{name}" not in prog.functions and f"{f.module.name}.{name}" not in prog.classes
+
+
+def kind_text(k) -> str:
+    if k is None:
+        return "an untyped value"
+    if isinstance(k, tuple):
+        if k[0] == "cls":
+            return f"a {k[1].rpartition('.')[2]} object"
+        if k[0] == "coll":
+            return f"a collection of {kind_text(k[1])}"
+        return f"a mapping {kind_text(k[1])} -> {kind_text(k[2])}"
+    return {"int": "an int (id)", "str": "a str", "bool": "a bool", "T": "a node of the same graph", "none": "None"}.get(k, str(k))
